@@ -26,7 +26,7 @@ from harness import common
 from harness.common import Model
 
 PID = "C16"
-TRANSLATORS = ["T-unsatcore", "T-coreids", "T-coreappend"]
+TRANSLATORS = ["T-unsatcore", "T-coreids", "T-coreappend", "T-cacheusers"]
 KNOWN = []   # genuine defects of halmos found by this check (none: see the final report)
 
 PARTIAL = (
@@ -868,7 +868,7 @@ def run(rep, tier):
     if os.environ.get("C16_SKIP_E2E"):          # developer knob (mutation campaigns); never set by bin/check
         rep.coverage["L3_skipped"] = True
     else:
-        C16_e2e.run_e2e(rep, tier, r, fail)
+        C16_e2e.run_e2e(rep, tier, r, fail, m)
     _t(rep, "e2e")
 
     rep.coverage["traces_validated_against_impl"] = rep.evaluations
